@@ -2,104 +2,14 @@
 `operator/single/mod.rs`, `operator/multi/mod.rs`: act_on, dgr, c, apply (buffer ping-pong), *=; `QReg::apply`.
 (split out of GenRegs2.lean so that an equality that no longer holds blocks only the properties that rely on it)
 -/
-import Qvnt.Lemmas.GenPre
-
-set_option linter.unusedSectionVars false
-
-namespace Qvnt.Gen2
-open Qvnt Qvnt.Gen
-
-variable {R : Type}
-
-/-! ### `SingleOp`, `MultiOp` (`operator/single/mod.rs`, `operator/multi/mod.rs`) -/
-section ops
-variable [CommRing R] [Consts R] [Div R] [LE R] [DecidableLE R] [LT R] [DecidableLT R] [HasSqrt R] [RegConsts R]
-
-theorem single_act_on_eq (g : SingleOp R) : single_act_on g = g.actOn := rfl
-theorem single_dgr_eq (g : SingleOp R) : single_dgr g = g.dgr := rfl
-
-theorem single_c_eq (g : SingleOp R) (c : Nat) : single_c g c = g.c c := by
-  unfold single_c SingleOp.c single_act_on SingleOp.actOn
-  by_cases h : (g.act ||| g.ctrl) &&& c = 0 <;> simp [h]
-
-/-- one sweep: the translated `SingleOp::apply` fills the output buffer with the model's `applyArr` -/
-theorem single_apply_eq (g : SingleOp R) (hc : g.ctrl < 2 ^ 64) (a : Array (Cx R)) (o : List (Cx R))
-    (ho : o.length = a.size) :
-    single_apply g a.toList o = (g.applyArr a).toList := by
-  unfold single_apply atomForEach SingleOp.applyArr
-  apply List.ext_getElem
-  · simp [Rs.mapIdx, Rs.enumerate, ho]
-  · intro i h1 h2
-    rw [mapIdx_getElem]
-    simp only [Array.getElem_toList, Array.getElem_ofFn]
-    have : (fun i => a.toList.getD i 0) = bufFn a := by
-      funext j; simp [bufFn, List.getD_eq_getElem?_getD, Array.getD_eq_getD_getElem?]
-    rw [this, forEach_eq g hc]
-
-theorem multi_act_on_eq (o : MultiOp R) : multi_act_on o = MultiOp.actOn o := rfl
-
-theorem multi_dgr_eq (o : MultiOp R) : multi_dgr o = MultiOp.dgr o := by
-  simp [multi_dgr, MultiOp.dgr, single_dgr_eq]
-
-theorem multi_mul_assign_eq (a b : MultiOp R) : multi_mul_assign a b = MultiOp.mul a b := rfl
-
-/-- `MultiOp::c`: the translated function never panics (the `unwrap` of every element succeeds whenever
-the product's own test passed) and returns what the model returns -/
-theorem multi_c_eq (o : MultiOp R) (cm : Nat) : multi_c o cm = some (MultiOp.c o cm) ∨
-    (MultiOp.c o cm = none ∧ MultiOp.actOn o &&& cm = 0) := by
-  unfold multi_c MultiOp.c
-  rw [multi_act_on_eq]
-  by_cases h : MultiOp.actOn o &&& cm = 0
-  · simp only [h, bne_self_eq_false, Bool.false_eq_true, ↓reduceIte, ne_eq, not_true_eq_false]
-    have hm : List.mapM (fun a1 => Option.bind (single_c a1 cm) fun u3 => some u3) o = List.mapM (fun g => g.c cm) o := by
-      congr 1; funext g; simp [single_c_eq]
-    rw [hm]
-    cases hc : List.mapM (fun g => SingleOp.c g cm) o with
-    | none => right; simp
-    | some l => left; simp
-  · left; simp [h]
-
-/-- `MultiOp::apply` with its buffer ping-pong: the translated function leaves in `psi_o` exactly what
-the model's `applyArr` computes, for every queue whose control masks are machine words -/
-theorem multi_apply_eq (o : MultiOp R) (hc : ∀ g ∈ o, g.ctrl < 2 ^ 64) (a : Array (Cx R)) (out : List (Cx R))
-    (ho : out.length = a.size) :
-    multi_apply o a.toList out = (MultiOp.applyArr o a).toList := by
-  unfold multi_apply MultiOp.applyArr
-  -- invariant of the fold: (psi_o, psi_i) = (scratch of the right length, current buffer)
-  suffices h : ∀ (l : MultiOp R) (hl : ∀ g ∈ l, g.ctrl < 2 ^ 64) (cur : Array (Cx R)) (scr : List (Cx R)),
-      scr.length = cur.size →
-      (List.foldl (fun (st : List (Cx R) × List (Cx R)) (g : SingleOp R) =>
-          (st.2, single_apply g st.2 st.1)) (scr, cur.toList) l).2 = (List.foldl (fun a g => g.applyArr a) cur l).toList by
-    have := h o hc a out ho
-    simpa using this
-  intro l
-  induction l with
-  | nil => intro _ cur scr _; simp
-  | cons g l ih =>
-    intro hl cur scr hs
-    simp only [List.foldl_cons]
-    rw [single_apply_eq g (hl g (by simp)) cur scr hs]
-    apply ih (fun g' hg' => hl g' (by simp [hg']))
-    simp [SingleOp.applyArr]
-
-end ops
-
-section apply
-variable [CommRing R] [Consts R] [Div R] [LE R] [DecidableLE R] [LT R] [DecidableLT R] [HasSqrt R] [RegConsts R]
-
-/-- `QReg::apply` (the sequential arm; the parallel arm is its twin): scratch buffer, one `MultiOp::apply`, swap -/
-theorem quant_apply_eq (r : QReg R) (o : MultiOp R) (hc : ∀ g ∈ o, g.ctrl < 2 ^ 64) :
-    quant_apply (ofModel r) o = ofModel (r.apply o) := by
-  unfold quant_apply QReg.apply
-  simp only [ofModel]
-  rw [multi_apply_eq o hc r.psi _ (by simp [Rs.resize])]
-
-theorem x_ctrl (v : Nat) : ∀ g ∈ (Op.x v : MultiOp R), g.ctrl < 2 ^ 64 := by
-  intro g hg
-  unfold Op.x MultiOp.ofSingle at hg
-  split at hg
-  · simp at hg
-  · simp at hg; subst hg; simp [SingleOp.ofAtom]
-
-end apply
-end Qvnt.Gen2
+import Qvnt.Lemmas.GenOps.single_act_on_eq
+import Qvnt.Lemmas.GenOps.single_dgr_eq
+import Qvnt.Lemmas.GenOps.single_c_eq
+import Qvnt.Lemmas.GenOps.single_apply_eq
+import Qvnt.Lemmas.GenOps.multi_act_on_eq
+import Qvnt.Lemmas.GenOps.multi_dgr_eq
+import Qvnt.Lemmas.GenOps.multi_mul_assign_eq
+import Qvnt.Lemmas.GenOps.multi_c_eq
+import Qvnt.Lemmas.GenOps.multi_apply_eq
+import Qvnt.Lemmas.GenOps.quant_apply_eq
+import Qvnt.Lemmas.GenOps.x_ctrl
